@@ -1,6 +1,7 @@
 import RtcVerif.Model.C20BSpline
 import RtcVerif.Proofs.C20Lemmas
 import RtcVerif.Proofs.C20RevCache
+import RtcVerif.Proofs.C20Fit
 import Mathlib.Algebra.Order.Field.Basic
 import Mathlib.Tactic.Linarith
 import Mathlib.Tactic.Ring
@@ -569,6 +570,81 @@ example : RootSound 0 affRoot ∧ RootCompleteFor (fun x => 10 - 2 * x) affRoot 
     rw [if_pos]
     · rfl
     · refine ⟨by linarith, by linarith, by ring⟩
+
+/-! ### set-up of `BSpline1D.fit`: what the least-squares solve is given -/
+
+/-- **The automatic knot vector has one coefficient per data point**: with `N ≥ k + 1` data points the
+    Fitpack rule yields `N + k + 1` knots, i.e. `N` basis functions (for odd and even `k`), so an
+    unconstrained fit can interpolate the table. -/
+theorem fit_knots_count (x : List Rat) (k : Nat) (δ : Rat) (h : k + 1 ≤ x.length) :
+    (fitKnots x k δ none).length = x.length + k + 1 ∧
+    (fitKnots x k δ none).length - k - 1 = x.length := by
+  rw [fitKnots_length x k δ h]
+  exact ⟨rfl, by omega⟩
+
+/-- with user-supplied interior knots the vector is the interior knots clamped by `k + 1` copies at each end -/
+theorem fit_knots_count_given (x l : List Rat) (k : Nat) (δ : Rat) :
+    (fitKnots x k δ (some l)).length = l.length + 2 * (k + 1) := fitKnots_length_given x k δ l
+
+/-- **The knots enclose the data range strictly** (first knot `x[0] - δ`, last knot `x[-1] + δ`, `δ > 0`),
+    so the table evaluates on the whole data range including both end points. -/
+theorem fit_knots_enclose (x : List Rat) (k : Nat) (δ : Rat) (interior : Option (List Rat)) (hδ : 0 < δ) :
+    (fitKnots x k δ interior).headD 0 < x.headD 0 ∧
+    x.getLastD 0 < (fitKnots x k δ interior).getLastD 0 := by
+  constructor
+  · simp only [fitKnots, List.replicate_succ, List.cons_append, List.headD_cons]
+    linarith
+  · have : (fitKnots x k δ interior).getLastD 0 = x.getLastD 0 + δ := by
+      simp only [fitKnots, List.replicate_succ']
+      rw [← List.append_assoc, List.getLastD_concat]
+    rw [this]; linarith
+
+/-- **`monotonicity > 0` makes every feasible coefficient vector strictly increasing** (rows
+    `ε ≤ c[i+1] - c[i]`, no upper bound), which by `increasing_coefficients_slope_nonneg` makes the
+    fitted curve non-decreasing on the whole domain, not only at the test points. -/
+theorem fit_monotone_rows_increasing (mono curv : Int) (ε : Rat) (hε : 0 < ε) (hm : 0 < mono)
+    (c : Nat → Rat) (m : Nat) (hf : dcFeasible (fitBounds mono curv ε) c m) :
+    ∀ i, i < m → c i < c (i + 1) := by
+  intro i hi
+  have h := (hf i hi).1
+  simp only [fitBounds, hm, if_true, EVal.leFin, decide_eq_true_eq] at h
+  linarith
+
+theorem fit_monotone_rows_decreasing (mono curv : Int) (ε : Rat) (hε : 0 < ε) (hm : mono < 0)
+    (c : Nat → Rat) (m : Nat) (hf : dcFeasible (fitBounds mono curv ε) c m) :
+    ∀ i, i < m → c (i + 1) < c i := by
+  intro i hi
+  have h := (hf i hi).2
+  simp only [fitBounds, hm, if_true, EVal.finLe, decide_eq_true_eq] at h
+  linarith
+
+/-- `monotonicity = 0` constrains nothing: every coefficient vector satisfies the rows -/
+theorem fit_unconstrained_rows_free (curv : Int) (ε : Rat) (c : Nat → Rat) (m : Nat) :
+    dcFeasible (fitBounds 0 curv ε) c m := by
+  intro i _
+  simp [fitBounds, EVal.leFin, EVal.finLe]
+
+/-- feasible monotone rows give a non-negative slope everywhere on the domain (composition with the
+    coefficient theorem) -/
+theorem fit_monotone_slope_nonneg (t : Nat → Rat) (n : Nat) (w : Nat → Rat) (k m : Nat) (x : Rat)
+    (mono curv : Int) (ε : Rat) (hε : 0 < ε) (hmono : 0 < mono)
+    (hm : Mono t) (hl : ∀ j, t j ≤ t (n - 1)) (hn : n - (k + 1) - 1 = m + 1)
+    (hx : InDomain t (t (n - 1)) x (k + 1) 0 (m + 1))
+    (hf : dcFeasible (fitBounds mono curv ε) w m) :
+    0 ≤ dspline1d t n w (k + 1) 1 x :=
+  increasing_coefficients_slope_nonneg t n w k m x hm hl hn hx
+    (fun i hi => le_of_lt (fit_monotone_rows_increasing mono curv ε hε hmono w m hf i hi))
+
+example : fitKnots [0, 1, 2, 3, 4, 5] 3 (1/10) none = [-1/10, -1/10, -1/10, -1/10, 2, 3, 51/10, 51/10, 51/10, 51/10] := by
+  decide +kernel
+
+example : fitKnots [0, 1, 2, 3, 4, 5] 2 (1/10) none = [-1/10, -1/10, -1/10, 3/2, 5/2, 7/2, 51/10, 51/10, 51/10] := by
+  decide +kernel
+
+example : dcFeasible (fitBounds 1 0 (1/10)) (fun i => (i : Rat)) 3 := by
+  intro i hi
+  have : i = 0 ∨ i = 1 ∨ i = 2 := by omega
+  rcases this with rfl | rfl | rfl <;> simp [fitBounds, EVal.leFin, EVal.finLe] <;> norm_num
 
 example :
     let c : RevCfg := { f := fun x => 10 - 2 * x, dl := 0, du := 3, ld := none, ud := none, detect := true }
